@@ -5,7 +5,7 @@ from vlib import Err
 PROP = "C29"
 COQ = {
     "property_file": "Properties/C29.v",
-    "imports": "From BV Require Import Lib.Bytes Model.Smart.",
+    "imports": "From BV Require Import Lib.Bytes Model.Smart Model.SmartBig.",
 }
 META = {
     "level": "proof",
@@ -54,6 +54,18 @@ def corpus():
 
 
 def cases(rng, tier):
+    small = list(_small_cases(rng, tier))
+    big = list(sc.gen_big(rng, tier)) + list(sc.gen_e2e_big(rng, tier))
+    # spread the large cases over the shards (they dominate the Coq evaluation time)
+    step = max(1, len(small) // (len(big) + 1))
+    for i, c in enumerate(small):
+        yield c
+        if i % step == step - 1 and big:
+            yield big.pop(0)
+    yield from big
+
+
+def _small_cases(rng, tier):
     yield from sc.gen_level_a(rng, tier, hints=False)
     n = 150 if tier == "quick" else 2000
     for _ in range(n):
@@ -86,6 +98,8 @@ def oracle(inp, obs):
     if isinstance(obs, Err) and str(obs).startswith("DRIVER"):
         return "driver error " + str(obs)
     k = inp["kind"]
+    if k in ("big", "big_enc"):
+        return _oracle_big(inp, obs)
     if k == "lp":
         last = obs[1][-1]
         body = b"".join(o[2] for o in obs[1])
@@ -119,6 +133,51 @@ def oracle(inp, obs):
     elif k == "e2e":
         return sc.oracle_e2e(inp, obs)
     return None
+
+
+def _oracle_big(inp, obs):
+    """decode(encode m) = m on large messages, through digests."""
+    last = obs[1][-1] if inp["kind"] == "big" else obs[1]
+    tail = sc.dg(sc.expand(inp.get("tail", [])))
+    d = inp["dec"]
+    if isinstance(last, Err):
+        return f"large {d} message failed to decode: {last}"
+    if d == "lp":
+        trace = obs[1] if inp["kind"] == "big" else [obs[1]]
+        n = sum(o[2][0] for o in trace)
+        want = sc.dg(sc.expand(inp["body"]))
+        ok = last[1] and n == want[0] and last[3] == tail and (len(trace) > 1 or last[2] == want)
+        if inp["kind"] == "big" and ok:
+            # the pieces handed out by read_pending_data concatenate to the body
+            P = sc._P()
+            enc = P.SmartProtocolBase()._encode_bulk_data(sc.expand(inp["body"]))
+            ok = sc.dg(b"".join(_lp_pieces(enc + sc.expand(inp["tail"]), inp["lens"]))) == want
+        if not ok:
+            return f"large bulk body of {want[0]} bytes decoded wrongly (finished={last[1]}, {n} bytes, unused {last[3]})"
+    elif d == "ck":
+        want = [sc.dg(sc.expand(c)) for c in inp["chunks"]]
+        werr = None if inp["err"] is None else [sc.dg(a) for a in inp["err"]]
+        if not last[1] or last[2] != want or last[3] != werr or last[4] != tail:
+            return f"large stream {want} decoded as {last[2]} err={last[3]} finished={last[1]}"
+    else:
+        want = [["headers", sc.dg(sc.bencode(dict(inp["headers"])))]]
+        for p in inp["parts"]:
+            want.append(["byte", p[1]] if p[0] == "o" else ["bytes", sc.dg(sc.expand(p[1]))] if p[0] == "b"
+                        else ["structure", sc.dg(sc.bencode(list(p[1])))])
+        want.append(["end"])
+        if not last[1] or [list(e) for e in last[2]] != want or last[3] != tail:
+            return f"large v3 message decoded as {[list(e) for e in last[2]]} finished={last[1]}, expected {want}"
+    return None
+
+
+def _lp_pieces(stream, lens):
+    P = sc._P()
+    d = P.LengthPrefixedBodyDecoder()
+    out = []
+    for seg in sc.cut(lens, stream):
+        d.accept_bytes(seg)
+        out.append(d.read_pending_data())
+    return out
 
 
 def _oracle_rh(inp, obs):
